@@ -328,6 +328,13 @@ type c05Checker struct {
 	rejected sync.Map
 	dupOK    int64 // processBlock accepted a list with a repeated signer next to a sound majority
 	cbErrs   int64
+	sigs     sync.Map // violation signature -> *int64 (all of them, also the ones ev stops printing)
+}
+
+func (c *c05Checker) violation(sig, detail string, cs c05Case) {
+	v, _ := c.sigs.LoadOrStore(sig, new(int64))
+	atomic.AddInt64(v.(*int64), 1)
+	c.r.Violation(sig, detail, cs)
 }
 
 func (c *c05Checker) count(m *sync.Map, p string) {
@@ -363,7 +370,12 @@ func (c *c05Checker) judge(e *c05Env, s c05Spec, x c05Expect, point string, acce
 		if what == "" {
 			what = "valid-list"
 		}
-		c.r.Violation(fmt.Sprintf("panic-instead-of-verdict[%s]@%s", what, point), fmt.Sprintf("%s panicked on %v: %s", point, s, panicked), cs)
+		sig := fmt.Sprintf("panic-instead-of-verdict[%s]@%s", what, point)
+		if x.hasGarbage {
+			// the list holds an entry whose signature recovers to no public key
+			sig = "panic-on-unrecoverable-signature-item@" + point
+		}
+		c.violation(sig, fmt.Sprintf("%s panicked on %v: %s", point, s, panicked), cs)
 		return
 	}
 	if accepted {
@@ -374,20 +386,20 @@ func (c *c05Checker) judge(e *c05Env, s c05Spec, x c05Expect, point string, acce
 	strictPoint := point != c05PProcess
 	switch {
 	case accepted && !x.sound:
-		c.r.Violation(fmt.Sprintf("accepted-without-two-thirds[%s]@%s", c.why(x, e.n), point),
+		c.violation(fmt.Sprintf("accepted-without-two-thirds[%s]@%s", c.why(x, e.n), point),
 			fmt.Sprintf("%s accepted %v: only %d of %d validators carry a valid signature over the block %s", point, s, x.distinctGood, e.n, detail), cs)
 	case accepted && !x.strict && strictPoint:
-		c.r.Violation(fmt.Sprintf("accepted-list-with-bad-entries[%s]@%s", c.why(x, e.n), point),
+		c.violation(fmt.Sprintf("accepted-list-with-bad-entries[%s]@%s", c.why(x, e.n), point),
 			fmt.Sprintf("%s accepted %v %s", point, s, detail), cs)
 	case accepted && !x.strict && !strictPoint:
 		if len(x.badKinds) > 0 {
-			c.r.Violation(fmt.Sprintf("accepted-list-with-bad-entries[%s]@%s", c.why(x, e.n), point),
+			c.violation(fmt.Sprintf("accepted-list-with-bad-entries[%s]@%s", c.why(x, e.n), point),
 				fmt.Sprintf("%s accepted %v %s", point, s, detail), cs)
 		} else {
 			atomic.AddInt64(&c.dupOK, 1) // repeated signer next to a sound majority: tolerated at the fast-sync entry (see note)
 		}
 	case !accepted && x.strict:
-		c.r.Violation(fmt.Sprintf("valid-certificate-rejected@%s", point),
+		c.violation(fmt.Sprintf("valid-certificate-rejected@%s", point),
 			fmt.Sprintf("%s rejected %v (%d of %d valid, all distinct) %s", point, s, x.distinctGood, e.n, detail), cs)
 	}
 }
@@ -402,7 +414,7 @@ func (e *c05Env) eval(c *c05Checker, s c05Spec, points map[string]bool) {
 		c.judge(e, s, x, c05PVerify, p == "" && err == nil, p, fmt.Sprintf("(err=%v)", err))
 		if p == "" && err == nil && x.strict {
 			if fmt.Sprint(voted) != fmt.Sprint(x.voted) {
-				c.r.Violation("voted-bitmap-wrong@VerifyBlock", fmt.Sprintf("%v: voted=%v want %v", s, voted, x.voted), c05Case{s, c05PVerify})
+				c.violation("voted-bitmap-wrong@VerifyBlock", fmt.Sprintf("%v: voted=%v want %v", s, voted, x.voted), c05Case{s, c05PVerify})
 			}
 		}
 	}
@@ -495,7 +507,7 @@ func (e *c05Env) eval(c *c05Checker, s c05Spec, points map[string]bool) {
 		}
 		consumed, rejected, p := consensus.VerifC05ProcessBlock(e.nodeB.CS, e.blk1ForB, list.Bytes())
 		if p == "" && consumed == rejected {
-			c.r.Violation("neither-consumed-nor-rejected@processBlock", fmt.Sprintf("%v consumed=%v rejected=%v", s, consumed, rejected), c05Case{s, c05PProcess})
+			c.violation("neither-consumed-nor-rejected@processBlock", fmt.Sprintf("%v consumed=%v rejected=%v", s, consumed, rejected), c05Case{s, c05PProcess})
 		}
 		c.judge(e, s, x, c05PProcess, p == "" && consumed, p, "")
 		if consumed {
@@ -746,6 +758,19 @@ func TestVerifC05(t *testing.T) {
 	r.Set("rejected", rej)
 	r.Set("processBlock_accepted_repeated_signer_with_sound_majority", c.dupOK)
 	r.Set("accepted_certificate_failed_later_stage", c.cbErrs)
+	vs := map[string]int64{}
+	c.sigs.Range(func(k, v interface{}) bool { vs[k.(string)] = *(v.(*int64)); return true })
+	if len(vs) > 0 {
+		r.Set("violating_cases_by_signature", vs)
+		var keys []string
+		for k := range vs {
+			keys = append(keys, k)
+		}
+		sort.Strings(keys)
+		for _, k := range keys {
+			fmt.Printf("C05 cases with signature %-70s %d\n", k, vs[k])
+		}
+	}
 	if complete && r.Violations() == 0 {
 		for _, p := range all {
 			r.Sanity(acc[p] > 0 && rej[p] > 0, "entry point %s accepted=%d rejected=%d", p, acc[p], rej[p])
